@@ -1,7 +1,9 @@
 CONSTANTS
   Alphabet <- L1
   Core <- L1Core
+  Mid <- L1Mid
   MaxAll = 3
+  MaxMid = 4
   MaxCore = 5
   Wrappers <- NoWrap
   MaxWrap = 0
